@@ -567,14 +567,6 @@ theorem mem_zip_of_mem_left {α β : Type} (l1 : List α) (l2 : List β) (h : l2
       · obtain ⟨b, hb⟩ := ih u (by simpa using h) ha'
         exact ⟨b, List.mem_cons_of_mem _ hb⟩
 
-/-- the recorded draw of a batch's random seats is legal for the seat manager it is applied to -/
-def BatchLegal (s : State) (js : List Join) (ch : List Int) : Prop :=
-  (randomIds js).isEmpty = false →
-    SM.legalChoice (if (fixedMap js).isEmpty then s.sm else (SM.assign s.sm (fixedMap js)).1) (randomIds js) ch = true
-
-instance (s : State) (js : List Join) (ch : List Int) : Decidable (BatchLegal s js ch) := by
-  unfold BatchLegal; exact inferInstance
-
 /-- what the seat manager holds after an accepted `batchAddPlayers`, seat by seat, and where it put each newcomer -/
 structure Placed (s : State) (js : List Join) (sm' : SM.State) : Prop where
   maxSeat : sm'.maxSeat = s.sm.maxSeat
